@@ -50,8 +50,10 @@ def make_pool(ctx, n):
     for i in range(n):
         option = lc.OPTIONS[i % 3]
         sub = (option != "euler") and rng.random() < 0.35
+        forced0 = (i % 9 == 4)            # t_max exactly 0 ("just the initial state"), both space types
         S, info = lc.gen_script(rng, option, max_steps=24 if option != "gillespie" else 8, sub_molecule=sub,
-                                mode=("auto" if sub else None), units=(rng.random() < 0.3))
+                                mode=("auto" if sub else None), units=(rng.random() < 0.3),
+                                zero_tmax=(True if forced0 else None), space_kind=(["grid", "graph"][(i // 9) % 2] if forced0 else None))
         info["sub_molecule"] = sub
         pool.append({"S": S, "info": info, "option": option, "idx": i})
     jobs = []
@@ -89,6 +91,10 @@ def make_pool(ctx, n):
         U = drive["U"]
         first_false = next((i for i, u in enumerate(U) if not u), None)
         if first_false is None:
+            m = rr[0]["meta"]
+            if p["option"] != "gillespie" and m.get("tmax", -1) >= 0 and m.get("dt", 0) > 0 and len(U) > frac(m["tmax"]) / frac(m["dt"]) + 3:
+                ctx.violation("no-completion", "a fixed-step run did not complete after %d steps, ceil(t_max/dt) = %s" % (len(U), common.fstr(frac(m["tmax"]) / frac(m["dt"]))),
+                              case, impl=len(U), expected="completion after ceil(t_max/dt) steps, give or take one")
             ctx.count("ref_too_long")
             continue
         T = [rr[0]["T"]] + drive["T"]
@@ -364,8 +370,24 @@ def annotate_run_counts(job, pool_by_idx, results):
             pos = newpos
 
 
+def _limit_per_key(ctx, per_key=3):
+    """report each violation key at most `per_key` times, so that a recurring (e.g. known) finding cannot crowd other
+    failures out of the runner's bounded list"""
+    seen = {}
+    orig = ctx.violation
+
+    def violation(key, what, case, impl=None, expected=None, replay_cmd=None):
+        seen[key] = seen.get(key, 0) + 1
+        if seen[key] <= per_key:
+            orig(key, what, case, impl=impl, expected=expected, replay_cmd=replay_cmd)
+        else:
+            ctx.count("oracle_failures_not_listed")
+    ctx.violation = violation
+
+
 def run(ctx):
     rng = ctx.rng
+    _limit_per_key(ctx)
     pool = make_pool(ctx, ctx.n(45, 900))
     pool_by_idx = {p["idx"]: p for p in pool}
     pool_by_opt = {}
